@@ -528,7 +528,8 @@ PROPS = {
                   ("Bug_ReleaseBeforeBgStops", "MC_RainLock.tla", "MC_RainLock_small.cfg", "OnlyOwnerWrites"),
                   ("Bug_DestroyIgnoresLock", "MC_RainLock.tla", "MC_RainLock_small.cfg", "OnlyOwnerWrites"),
                   ("Bug_OpenTruncatesOnFailure", "MC_RainLock.tla", "MC_RainLock_small.cfg", "OnlyOwnerWrites"),
-                  ("Bug_UnlinkLockAfterRelease", "MC_RainLock.tla", "MC_RainLock_small.cfg", "OneOwner")],
+                  ("Bug_UnlinkLockAfterRelease", "MC_RainLock.tla", "MC_RainLock_small.cfg", "OneOwner"),
+                  ("Bug_DestroyWipesAfterRelease", "MC_RainLock.tla", "MC_RainLock_small.cfg", "OnlyOwnerWrites")],
         trace=("RainLock_Trace.tla", "RainLock_Trace.cfg"),
         work=[dict(driver="lockfmt", args=["--rounds", "40", "--scripts", "6", "--gates", "1",
                                            "--per-file", "2"], quick=8, thorough=0),
